@@ -232,6 +232,63 @@ theorem update_keeps_data {δ : Type} (uc : UC) (v v' : Item δ) (h : ucCall uc 
   · simp at h; subst h; rfl
   · simp at h; subst h; rfl
 
+/-- what a successful construction keeps of its arguments -/
+theorem ucInit_shape (a : UCArgs) (uc : UC) (h : ucInit a = .ok uc) :
+    ∃ sc, a.subcontext = some sc ∧ sc ≠ "" ∧ uc.subctx = strToList sc ∧ uc.default = a.default ∧
+      uc.skipOnMissing = a.skipOnMissing ∧ uc.recursively = a.recursively := by
+  obtain ⟨sub, upd, value, dflt, skip, rais, rec⟩ := a
+  cases sub with
+  | none => simp [ucInit] at h
+  | some sc =>
+    by_cases hsc : sc = ""
+    · subst hsc; simp [ucInit] at h
+    · refine ⟨sc, rfl, hsc, ?_⟩
+      simp only [ucInit, hsc, if_false] at h
+      split at h
+      · simp at h
+      · cases upd with
+        | simple v =>
+          simp only at h
+          split at h
+          · simp at h
+          · simp at h; subst h; simp
+        | str u =>
+          simp only at h
+          split at h
+          · simp at h; subst h; simp
+          · split at h
+            · simp at h
+            · split at h
+              · simp at h
+              · split at h
+                · split at h
+                  · simp at h; subst h; simp
+                  · simp at h
+                  · simp at h; subst h; simp
+                · split at h
+                  · split at h
+                    · simp at h; subst h; simp
+                    · simp at h
+                    · simp at h; subst h; simp
+                  · simp at h; subst h; simp
+
+/-- the sub-context of a constructed element is never empty, and it is the key path the string names -/
+theorem ucInit_subctx (a : UCArgs) (uc : UC) (h : ucInit a = .ok uc) :
+    uc.subctx ≠ [] ∧ ∀ p, WFPath p → a.subcontext = some (joinDots p) → uc.subctx = p := by
+  obtain ⟨sc, hsc, hne, hs, -⟩ := ucInit_shape a uc h
+  constructor
+  · rw [hs]; unfold strToList; rw [if_neg hne]
+    unfold splitDots
+    have := splitDotsC_ne_nil sc.toList
+    simpa using this
+  · intro p hp e
+    rw [hsc] at e
+    injection e with e
+    subst e
+    rw [hs]; unfold strToList; rw [if_neg hne]
+    apply splitDots_joinDots _ _ (fun k hk => (hp k hk).2)
+    intro e; subst e; exact hne joinDots_nil
+
 /-! ### the missing-key matrix -/
 
 /-- **missing_key_matrix (context value)** — "a missing key is handled as configured (default, skip or
@@ -352,7 +409,7 @@ def nActive (a : UCArgs) : Nat := a.default.isSome.toNat + a.raiseOnMissing.toNa
 
 /-- does the construction consult jinja2, and does jinja2 reject the template -/
 def jinjaRejects (a : UCArgs) (u : String) : Prop :=
-  (a.raiseOnMissing = true ∨ a.skipOnMissing = true ∨ u.toList.contains '{' = true) ∧ jinjaParse u = .syntaxError
+  (a.raiseOnMissing = true ∨ a.skipOnMissing = true ∨ '{' ∈ u.toList) ∧ jinjaParse u = .syntaxError
 
 /-- the documented ill-formed argument combinations of `UpdateContext` -/
 def IllFormed (a : UCArgs) : Prop :=
@@ -361,6 +418,30 @@ def IllFormed (a : UCArgs) : Prop :=
   (∃ u, a.update = .str u ∧ a.value = true ∧ matchValueTemplate u.toList = false) ∨
   (∃ u, a.update = .str u ∧ a.value = false ∧ a.default.isSome = true) ∨
   (∃ u, a.update = .str u ∧ a.value = false ∧ jinjaRejects a u)
+
+/-- **missing_key_matrix (construction)** — "a malformed argument [is handled] by
+LenaTypeError/LenaValueError, never by another exception": construction fails exactly for the ill-formed
+combinations, with `LenaTypeError` exactly when the sub-context is not a string and `LenaValueError`
+otherwise -/
+theorem init_matrix (a : UCArgs) :
+    ((∃ uc, ucInit a = .ok uc) ↔ ¬ IllFormed a) ∧
+    (∀ e, ucInit a = .error e → (e = .lenaTypeError ↔ a.subcontext = none) ∧
+                                  (e = .lenaValueError ↔ a.subcontext ≠ none)) := by
+  obtain ⟨sub, upd, value, dflt, skip, rais, rec⟩ := a
+  cases sub with
+  | none => simp [ucInit, IllFormed]
+  | some sc =>
+    by_cases hsc : sc = ""
+    · subst hsc; simp [ucInit, IllFormed]
+    · cases upd with
+      | simple v =>
+        cases dflt <;> cases skip <;> cases rais <;>
+          simp [ucInit, IllFormed, nActive, hsc, jinjaRejects]
+      | str u =>
+        cases hm : matchValueTemplate u.toList <;> cases hj : jinjaParse u <;>
+        by_cases hb : '{' ∈ u.toList <;>
+        cases dflt <;> cases skip <;> cases rais <;> cases value <;>
+          simp [ucInit, IllFormed, nActive, hsc, jinjaRejects, hm, hj, hb]
 
 example : ¬ IllFormed (UCArgs.mk (some "output.plot") (.simple (.dict [("scatter", .leaf (.bool true))])) false none
     false false true) := by
